@@ -8,7 +8,7 @@ import ast
 import itertools
 import z3
 
-from .sv import (V, VCError, Heap, Ref, NULL, birth, typeof, IntS, BoolS, StrS, Dyn, mk_int, mk_bool, mk_str,
+from .sv import (V, VCError, Heap, Ref, NULL, birth, typeof, IntS, BoolS, StrS, Dyn, mk_int, mk_bool, mk_str, len_key, arr_key,
                  mk_ref, mk_list, mk_opt, mk_enum, NONE, fresh_of, sort_of, elem_array_key, parse_type)
 
 # ---------------------------------------------------------------- control-flow signals
@@ -65,6 +65,7 @@ class Obligation:
         self.func_key = func_key
         self.path_id = path_id
         self.trivial = False
+        self.parts = None
 
     def smt2(self):
         s = z3.Solver()
@@ -166,6 +167,7 @@ class FunctionVerifier:
             self._fresh_ids, self._entry_ids, self._id_keep = set(), set(), []
             self._owner_tag, self._entry_term_cache, self._binder_cache, self._lkind_tag = {}, {}, {}, {}
             self._revealed = {}
+            self._newer_havoc, self._fresh_order = {}, {}
             self.paths += 1
             if self.paths > self.max_paths:
                 raise VCError(f"{self.label}: more than {self.max_paths} paths")
@@ -306,10 +308,24 @@ class FunctionVerifier:
         return [g]
 
     def oblige(self, goal, kind, label, where=""):
+        """One obligation per clause.  When the clause is a conjunction (or a guarded conjunction) its conjuncts are
+        kept as *parts*: the whole clause is tried first, the parts only if that single query is not discharged."""
         parts = self.split_goal(goal)
         if len(parts) > 1:
-            for i, p in enumerate(parts):
-                self.oblige1(p, kind, f"{label}/{i}", where)
+            pc_before = list(self.pc)
+            n_before = len(self.obligations)
+            self.oblige1(goal, kind, label, where)
+            if len(self.obligations) > n_before:
+                parent = self.obligations[-1]
+                if not parent.trivial:
+                    parent.parts = []
+                    for i, p in enumerate(parts):
+                        if z3.is_true(z3.simplify(p)):
+                            continue
+                        # each part is proved from the path condition as it was before the clause
+                        # (not from its sibling parts: they are proved independently)
+                        parent.parts.append(Obligation(f"{parent.name}/{i}", kind, pc_before, p, where, self.label,
+                                                       self.paths))
             return
         self.oblige1(goal, kind, label, where)
 
@@ -397,6 +413,7 @@ class FunctionVerifier:
         self._fresh_ids, self._entry_ids, self._id_keep = set(), set(), []
         self._owner_tag, self._entry_term_cache, self._binder_cache, self._lkind_tag = {}, {}, {}, {}
         self._revealed = {}
+        self._newer_havoc, self._fresh_order = {}, {}
         self.paths += 1
         heap = Heap()
         self.heap = heap
@@ -450,6 +467,11 @@ class FunctionVerifier:
         self.proving = True
         try:
             for label, clause in c.ensures_clauses():
+                if label.startswith("assumed"):
+                    # an ASSUMED postcondition: callers may use it, this function is not checked against it
+                    # (listed under assumptions in the evidence)
+                    self.world.assumed_clauses.add(f"{self.func.key}: ensures_{label.split('.')[0]}")
+                    continue
                 self.oblige(self.eval_spec_bool(clause, post), "ensures", label,
                             self.prog.loc(self.func.module, self.func.node))
         finally:
@@ -480,6 +502,7 @@ class FunctionVerifier:
         """Everything allocated at entry and not in the modifies clause is unchanged (per heap array)."""
         c = self.contract
         mod = self.eval_modifies(c.modifies, Ctx(self.pre_env, self.pre_heap, spec=True), self.cur_class())
+        newer = mod.pop("__newer__", None)
         for key, arr in self.heap.arrays.items():
             arr0 = self.pre_heap.arrays.get(key)
             if arr0 is None:
@@ -491,6 +514,8 @@ class FunctionVerifier:
             r = z3.Const(f"frame_r!{key}", Ref)
             allowed = mod.get(key, [])
             hyp = [birth(r) < self.pre_heap.now, r != NOWHERE] + [r != m for m in allowed]
+            if newer:
+                hyp += [birth(r) < birth(b) for b in newer]
             goal = z3.Implies(conj(hyp), z3.Select(arr, r) == z3.Select(arr0, r))
             self.oblige(goal, "frame", key, self.prog.loc(self.func.module, self.func.node))
 
@@ -512,8 +537,8 @@ class FunctionVerifier:
                 l = self.eval(e.args[0], ctx)
                 if l.kind() != "list":
                     raise VCError(f"modifies items(): not a list: {it}")
-                add("LLen", l.t)
-                add(elem_array_key(l.ty[1]), l.t)
+                add(len_key(l.ty), l.t)
+                add(arr_key(l.ty), l.t)
             elif isinstance(e, ast.Call) and isinstance(e.func, ast.Name) and e.func.id == "fields":
                 o = self.eval(e.args[0], ctx)
                 ocls = o.ty[1]
@@ -528,6 +553,10 @@ class FunctionVerifier:
                 fkey = "f:" + e.args[0].value
                 add(fkey, "*")
                 add(fkey + "?", "*")
+            elif isinstance(e, ast.Call) and isinstance(e.func, ast.Name) and e.func.id == "newer_than":
+                # everything allocated after the given object may change (and nothing older): a quantified frame
+                o = self.eval(e.args[0], ctx)
+                out.setdefault("__newer__", []).append(o.t)
             elif isinstance(e, ast.Call) and isinstance(e.func, ast.Name) and e.func.id == "every_list":
                 add("LLen", "*")
                 add(e.args[0].value, "*")
@@ -538,8 +567,8 @@ class FunctionVerifier:
                 if isinstance(inner, ast.Call) and isinstance(inner.func, ast.Name) and inner.func.id == "items":
                     l = self.eval(inner.args[0], ctx)
                     rt = z3.If(c, l.t, NOWHERE)
-                    add("LLen", rt)
-                    add(elem_array_key(l.ty[1]), rt)
+                    add(len_key(l.ty), rt)
+                    add(arr_key(l.ty), rt)
                 else:
                     o = self.eval(inner.value, ctx)
                     fkey, fty = self.world.field_key(o.ty[1], inner.attr, self.cur_class())
@@ -917,22 +946,22 @@ class FunctionVerifier:
     def list_len(self, l, heap):
         if isinstance(l.aux, Heap):
             heap = l.aux
-        return self.sel(heap.get("LLen", IntS), l.t, "LLen")
+        return self.sel(heap.get(len_key(l.ty), IntS), l.t, len_key(l.ty))
 
     def set_list_len(self, l, n):
-        a = self.heap.get("LLen", IntS)
-        self.heap.set("LLen", z3.Store(a, l.t, n))
+        a = self.heap.get(len_key(l.ty), IntS)
+        self.heap.set(len_key(l.ty), z3.Store(a, l.t, n))
 
     def list_arr(self, l, heap):
         if isinstance(l.aux, Heap):
             heap = l.aux
         ety = l.ty[1]
-        key = elem_array_key(ety)
+        key = arr_key(l.ty)
         return z3.simplify(self.sel(heap.get(key, z3.ArraySort(IntS, sort_of(ety))), l.t, key))
 
     def set_list_arr(self, l, arr):
         ety = l.ty[1]
-        key = elem_array_key(ety)
+        key = arr_key(l.ty)
         a = self.heap.get(key, z3.ArraySort(IntS, sort_of(ety)))
         self.heap.set(key, z3.Store(a, l.t, arr))
 
@@ -985,6 +1014,7 @@ class FunctionVerifier:
     def alloc(self, name="obj", cls=None):
         r = self.fresh_ref_term(name)
         self._fresh_ids.add(r.get_id())
+        self._fresh_order[r.get_id()] = len(self._fresh_order)
         self._id_keep.append(r)
         self.assume(z3.And(birth(r) == self.heap.now, birth(r) >= 0))
         self.assume(r != NULL)
@@ -1078,6 +1108,10 @@ class FunctionVerifier:
         if z3.is_app(arr) and arr.decl().kind() == z3.Z3_OP_ITE:
             a, b = self.sel(arr.arg(1), r, key), self.sel(arr.arg(2), r, key)
             return a if a.eq(b) else z3.If(arr.arg(0), a, b)
+        nh = self._newer_havoc.get(arr.get_id())
+        if nh is not None and self.older_than(r, nh[1]):
+            # the array was havocked by a `newer_than(b)` frame and r is provably older than b: unchanged slot
+            return self.sel(nh[0], r, key)
         while z3.is_app(arr) and arr.decl().kind() == z3.Z3_OP_STORE:
             idx = arr.arg(1)
             if idx.get_id() == r.get_id():
@@ -1091,6 +1125,15 @@ class FunctionVerifier:
             if v is not None and v[0] == arr.get_id():
                 return v[1]
         return z3.Select(arr, r)
+
+    def older_than(self, r, bound):
+        ib = bound.get_id()
+        if ib not in self._fresh_order:
+            return False
+        ir = r.get_id()
+        if ir in self._fresh_order:
+            return self._fresh_order[ir] < self._fresh_order[ib]
+        return ir in self._entry_ids or self.is_entry_term(r)
 
     def reveal(self, key, sort, r, value):
         """fresh reference r: its slot in heap array `key` holds `value` (see new_list)"""
@@ -1263,6 +1306,19 @@ class FunctionVerifier:
 
     def havoc_heap(self, modifies, env, heap, owner=None):
         mod = self.eval_modifies(modifies, Ctx(env, heap, spec=True), owner)
+        newer = mod.pop("__newer__", None)
+        if newer:
+            bound = newer[0]
+            for key in list(self.heap.arrays):
+                old = self.heap.arrays[key]
+                fresh_arr = z3.Const(f"{key}!{next(self.ctr)}", old.sort())
+                r = z3.Const(f"fr!{next(self.ctr)}", Ref)
+                self.assume(z3.ForAll([r], z3.Implies(birth(r) < birth(bound),
+                                                      z3.Select(fresh_arr, r) == z3.Select(old, r)),
+                                      patterns=[z3.Select(fresh_arr, r)]))
+                self.heap.set(key, fresh_arr)
+                self._newer_havoc[fresh_arr.get_id()] = (old, bound)
+                self._id_keep.append(fresh_arr)
         for key, refs in mod.items():
             arr = self.heap.arrays.get(key)
             if arr is None:
@@ -1285,7 +1341,7 @@ class FunctionVerifier:
                     self.heap.set(key, z3.If(r.arg(0), z3.Store(old, r.arg(1), fv), old))
                 else:
                     self.heap.set(key, z3.Store(old, r, fv))
-                if key == "LLen":
+                if key in ("LLen", "GLen"):
                     self.assume(fv >= 0)
 
     # ------------------------------------------------------------ expression evaluation
@@ -1339,6 +1395,13 @@ class FunctionVerifier:
             return mk_bool(n == "True")
         if n in self.prog.classes:
             return V("class", n)
+        if n == "WORLD":
+            # ghost object recording the observable effects of a run (files written, directories made, stdout)
+            t = z3.Const("WORLD", Ref)
+            self.assume(z3.And(t != NULL, birth(t) >= 0, birth(t) < self.pre_heap.now, lkind(t) == 0))
+            self._entry_ids.add(t.get_id())
+            self._id_keep.append(t)
+            return mk_ref(t, "World", exact=True)
         if ctx.spec and n in self.world.consts and isinstance(self.world.consts[n], (str, int)):
             c = self.world.consts[n]
             return mk_str(c) if isinstance(c, str) else mk_int(c)
